@@ -31,7 +31,13 @@ Record ref_frame := mkRef {
   r_pay : nat                     (* start of the payload; every view runs to the end of the frame *)
 }.
 
-Inductive ref_result := RErr | ROk (r : ref_frame).
+(* Error classes of the library's sentinels: RLen = ErrFrameLen ("invalid frame length": a header of the selected
+   path is truncated or its own length fields are inconsistent with the bytes present), RParse = ErrParseFrame
+   ("failed to parse frame": the hard-coded ARP validation - fewer than 28 bytes or hardware length <> 6 - which
+   the library reports under this sentinel).  The property text does not name classes; the reference follows the
+   library's documented sentinels, one class per check, so that a change of class is a visible difference. *)
+Inductive rerr := RLen | RParse.
+Inductive ref_result := RErr (e : rerr) | ROk (r : ref_frame).
 
 (* ---------------------------------------------------------------- *)
 (* Field positions *)
@@ -110,7 +116,7 @@ Definition with_l4 (base : ref_frame) (id : N) (sp dp : N) (udp tcp : option nat
 Definition ref_l4 (base : ref_frame) (proto : N) (seg : bytes) (off : nat) : ref_result :=
   match lookup proto ipproto_table with
   | Some L4UDP =>
-      if Nat.ltb (length seg) 8 then RErr else
+      if Nat.ltb (length seg) 8 then RErr RLen else
       let sp := word_at seg 0 in
       let dp := word_at seg 2 in
       match first_rule sp dp udp_rules with
@@ -120,12 +126,12 @@ Definition ref_l4 (base : ref_frame) (proto : N) (seg : bytes) (off : nat) : ref
   | Some L4TCP =>
       (* RFC 793: fixed header of 20 bytes; the data offset (high nibble of byte 12, in 32-bit words) is the
          header's own length field: at least 5 words and not beyond the bytes present *)
-      if Nat.ltb (length seg) 20 then RErr else
+      if Nat.ltb (length seg) 20 then RErr RLen else
       let doff := N.to_nat (4 * (byte_at seg 12 / 16)) in
-      if Nat.ltb doff 20 || Nat.ltb (length seg) doff then RErr else
+      if Nat.ltb doff 20 || Nat.ltb (length seg) doff then RErr RLen else
       ROk (with_l4 base 9 (word_at seg 0) (word_at seg 2) None (Some off) off)
   | Some (L4ICMP id) =>
-      if Nat.ltb (length seg) 8 then RErr else ROk (with_l4 base id 0 0 None None off)
+      if Nat.ltb (length seg) 8 then RErr RLen else ROk (with_l4 base id 0 0 None None off)
   | Some (L4Leaf id) => ROk (with_l4 base id 0 0 None None off)
   | None => ROk (with_l4 base (r_id base) 0 0 None None off)
   end.
@@ -135,24 +141,24 @@ Definition ref_l4 (base : ref_frame) (proto : N) (seg : bytes) (off : nat) : ref
 
 (* IPv4 (RFC 791): header length 4*IHL >= 20, IHL*4 <= TotalLen <= bytes present *)
 Definition ref_ip4 (smac dmac pkt : bytes) (off : nat) : ref_result :=
-  if Nat.ltb (length pkt) 20 then RErr else
+  if Nat.ltb (length pkt) 20 then RErr RLen else
   let ihl := N.to_nat (4 * (byte_at pkt 0 mod 16)) in
   let tl := N.to_nat (word_at pkt 2) in
-  if Nat.ltb ihl 20 || Nat.ltb tl ihl || Nat.ltb (length pkt) tl then RErr else
+  if Nat.ltb ihl 20 || Nat.ltb tl ihl || Nat.ltb (length pkt) tl then RErr RLen else
   let base := mkRef 4 smac dmac (sub pkt 12 4) (sub pkt 16 4) 0 0 (Some off) None None None (off + ihl) in
   ref_l4 base (byte_at pkt 9) (skipn ihl pkt) (off + ihl).
 
 (* IPv6 (RFC 8200): fixed 40-byte header, 40 + PayloadLen <= bytes present *)
 Definition ref_ip6 (smac dmac pkt : bytes) (off : nat) : ref_result :=
-  if Nat.ltb (length pkt) 40 then RErr else
-  if Nat.ltb (length pkt) (40 + N.to_nat (word_at pkt 4)) then RErr else
+  if Nat.ltb (length pkt) 40 then RErr RLen else
+  if Nat.ltb (length pkt) (40 + N.to_nat (word_at pkt 4)) then RErr RLen else
   let base := mkRef 5 smac dmac (sub pkt 8 16) (sub pkt 24 16) 0 0 None (Some off) None None (off + 40) in
   ref_l4 base (byte_at pkt 6) (skipn 40 pkt) (off + 40).
 
 (* ARP over Ethernet/IPv4 (RFC 826): 28 bytes, hardware address length 6 *)
 Definition ref_arp (smac dmac pkt : bytes) (off : nat) : ref_result :=
-  if Nat.ltb (length pkt) 28 then RErr else
-  if negb (byte_at pkt 4 =? 6) then RErr else
+  if Nat.ltb (length pkt) 28 then RErr RParse else
+  if negb (byte_at pkt 4 =? 6) then RErr RParse else
   ROk (mkRef 3 smac dmac [] [] 0 0 None None None None off).
 
 (* ---------------------------------------------------------------- *)
@@ -161,12 +167,12 @@ Definition ref_arp (smac dmac pkt : bytes) (off : nat) : ref_result :=
 Definition is_group_mac (mac : bytes) : bool := N.odd (byte_at mac 0).
 
 Definition ref_decode (b : bytes) : ref_result :=
-  if Nat.ltb (length b) 14 then RErr else
+  if Nat.ltb (length b) 14 then RErr RLen else
   let dmac := sub b 0 6 in
   let smac := sub b 6 6 in
   let et := word_at b 12 in
   let hdr := (14 + match lookup et tag_table with Some n => n | None => 0 end)%nat in
-  if Nat.ltb (length b) hdr then RErr else
+  if Nat.ltb (length b) hdr then RErr RLen else
   let ether id pay := ROk (mkRef id smac dmac [] [] 0 0 None None None None pay) in
   if is_group_mac smac then ether 1 hdr else
   if et <? 1536 then ether 2 14%nat else
